@@ -96,6 +96,12 @@ def cmd_run(i, tier, props):
         shutil.copytree(REPO, scratch, ignore=shutil.ignore_patterns("_build", ".git", "build"))
         a = sh(["patch", "-p1", "-s", "-d", scratch, "-i", os.path.join(d, "patch.diff")])
         if a.returncode != 0:
+            # the tree has moved on (a later fix: commit touched the same lines): use the rebased copy of the same change
+            shutil.rmtree(scratch)
+            shutil.copytree(REPO, scratch, ignore=shutil.ignore_patterns("_build", ".git", "build"))
+            reb = sorted(f for f in os.listdir(d) if f.startswith("patch_rebased"))
+            a = sh(["patch", "-p1", "-s", "-d", scratch, "-i", os.path.join(d, reb[-1])]) if reb else a
+        if a.returncode != 0:
             print("patch failed", a.stdout)
             return 2
         worst = 0
